@@ -73,7 +73,7 @@ import ast
 import itertools
 
 from ..cfg import ALL, NORMAL
-from ..dataflow import _def_node_ids, reaching_defs
+from ..dataflow import _def_node_ids, origins, reaching_defs
 from ..facts import atoms, facts_at
 from ..model import contains_await, dotted, parent, ancestors, unparse, walk_no_nested
 from ..selftest import V
@@ -716,53 +716,95 @@ def _helper_rearms(ctx, f, helpers):
                witness=wit)
 
 
+def _loop_sites(p, f, depth: int = 2):
+    """[(owner, While, via)]: every `while` of run() `f` and of the helper methods it awaits through `self.m(...)`
+    (resolved call, inlining bound `depth`; `terminate` and the run() overrides of the Step table -- checked on their
+    own -- are not entered).  `via` is the chain [(caller, call)] from `f` to the owner ([] for `f` itself): a loop that
+    was moved wholesale into a cooperating method is still a loop of run()."""
+    cache = p.__dict__.setdefault("_c04_loop_sites", {})
+    if f.qualname in cache:
+        return cache[f.qualname]
+    out, seen = [], {f.qualname}
+
+    def visit(h, via, d):
+        for n in h.body_nodes():
+            if isinstance(n, ast.While):
+                out.append((h, n, via))
+        if d <= 0:
+            return
+        for c in h.calls():
+            if not (self_call(c) and _awaited(c)) or c.func.attr in ("terminate", "run"):
+                continue
+            qs = p.resolve_call(h, c, fanout=True)
+            callees = [p.functions[q] for q in qs if q in p.functions]
+            if not callees or len(callees) != len(qs):
+                continue
+            for cal in callees:
+                if cal.is_abstract or cal.qualname in seen:
+                    continue
+                seen.add(cal.qualname)
+                visit(cal, via + [(h, c)], d - 1)
+
+    visit(f, [], depth)
+    cache[f.qualname] = out
+    return out
+
+
+def _via_text(f, h, via) -> str:
+    """Finding text: where the construct was found when it is not in the anchored method itself."""
+    if h.qualname == f.qualname:
+        return f.qualname
+    return f"{h.qualname} (awaited from {f.qualname} through {' -> '.join('self.' + c.func.attr + '()' for _, c in via)})"
+
+
 def r3(ctx):
     p = ctx.prog
     for f in _step_runs(ctx):
-        g = f.cfg
-        for w in [n for n in f.body_nodes() if isinstance(n, ast.While)]:
+        for h, w, via in _loop_sites(p, f):
+            g = h.cfg
+            where = _via_text(f, h, via)
             heads = g.ids_of(w.test)
-            ctx.require(bool(heads), f"C04.R3: loop of {f.qualname} has no CFG node")
+            ctx.require(bool(heads), f"C04.R3: loop of {where} has no CFG node")
             head = heads[0]
             body = loop_body_nodes(g, head) | {b for b in g.reach(branch_succ(g, head, "t"), avoid=[head], include_src=True)}
             body.discard(head)
             inst = f"{f.cls.name}.run:while {unparse(w.test)[:40]}"
-            tts = _term_tests(p, f, g, body)
+            tts = _term_tests(p, h, g, body)
             const_true = isinstance(w.test, ast.Constant) and bool(w.test.value)
             if const_true:
                 exits = [i for i in body if g.nodes[i].kind in ("break", "return") and _owner_loop(g.nodes[i].ast) in (w, None)]
                 ok, why = False, "no break/return inside the loop" if not exits else "no exit is controlled by a termination-token test"
                 for t, pol in tts:
-                    ctx.require(pol is not None, f"C04.R3: cannot tell which branch of `{t.text(80)}` in {f.qualname} is the termination branch")
+                    ctx.require(pol is not None, f"C04.R3: cannot tell which branch of `{t.text(80)}` in {where} is the termination branch")
                     succ = branch_succ(g, t.id, "t" if pol else "f")
                     reach = g.reach(succ, avoid=[head], include_src=True)
                     if any(x in reach for x in exits):
                         ok, why = True, ""
-                ctx.ob("R3", f"{f.cls.name}.run: `while True` is left on a termination token", ok, func=f, node=w, instance=inst,
-                       message=f"{f.qualname}: {why}: the step never terminates")
+                ctx.ob("R3", f"{f.cls.name}.run: `while True` is left on a termination token", ok, func=h, node=w, instance=inst,
+                       message=f"{where}: {why}: the step never terminates")
                 continue
             # task-set loop
             helpers = []
             for i in body:
-                helpers += _callee_funcs(p, f, g.nodes[i])
+                helpers += _callee_funcs(p, h, g.nodes[i])
             helper_tests = any(_term_tests(p, h, h.cfg, h.cfg.nodes.keys()) for h in helpers)
             _helper_rearms(ctx, f, helpers)
             if not tts:
-                ctx.ob("R3", f"{f.cls.name}.run: task loop `while {unparse(w.test)}` tests for termination tokens", False, func=f, node=w,
-                       instance=inst, message=f"{f.qualname}: the task loop never tests for a termination token"
+                ctx.ob("R3", f"{f.cls.name}.run: task loop `while {unparse(w.test)}` tests for termination tokens", False, func=h, node=w,
+                       instance=inst, message=f"{where}: the task loop never tests for a termination token"
                        + (" (only inside a helper: the rule cannot relate it to the re-arm)" if helper_tests else "")
                        + ": ports are re-armed forever and the loop never drains")
                 continue
             ok, why = True, ""
-            rearm_somewhere = any(_is_rearm(p, f, g.nodes[i]) for i in body)
-            if not rearm_somewhere and not _reads_task_set(f, w):
+            rearm_somewhere = any(_is_rearm(p, h, g.nodes[i]) for i in body)
+            if not rearm_somewhere and not _reads_task_set(h, w):
                 # flag-controlled loop (`while not done:`): the termination branch must leave the loop or write a name the loop test reads
                 test_names = {x.id for x in ast.walk(w.test) if isinstance(x, ast.Name)} | {
                     x.attr for x in ast.walk(w.test) if isinstance(x, ast.Attribute) and is_name(x.value, "self")}
                 exits = [i for i in body if g.nodes[i].kind in ("break", "return") and _owner_loop(g.nodes[i].ast) in (w, None)]
                 ok, why = False, "the termination branch neither leaves the loop nor changes what the loop test reads"
                 for t, pol in tts:
-                    ctx.require(pol is not None, f"C04.R3: cannot tell which branch of `{t.text(80)}` in {f.qualname} is the termination branch")
+                    ctx.require(pol is not None, f"C04.R3: cannot tell which branch of `{t.text(80)}` in {where} is the termination branch")
                     kind = "t" if pol else "f"
                     reach = g.reach(branch_succ(g, t.id, kind), avoid=[head], include_src=True)
                     excl = exclusive_region(g, t.id, kind, stop=[head])
@@ -773,11 +815,11 @@ def r3(ctx):
                             written |= {x.attr for tg in a.targets for x in ast.walk(tg) if isinstance(x, ast.Attribute) and is_name(x.value, "self")}
                     if any(x in reach for x in exits) or (written & test_names):
                         ok, why = True, ""
-                ctx.ob("R3", f"{f.cls.name}.run: `while {unparse(w.test)}` ends on a termination token", ok, func=f, node=w, instance=inst,
-                       message=f"{f.qualname}: {why}: the step never terminates")
+                ctx.ob("R3", f"{f.cls.name}.run: `while {unparse(w.test)}` ends on a termination token", ok, func=h, node=w, instance=inst,
+                       message=f"{where}: {why}: the step never terminates")
                 continue
             for t, pol in tts:
-                ctx.require(pol is not None, f"C04.R3: cannot tell which branch of `{t.text(80)}` in {f.qualname} is the termination branch")
+                ctx.require(pol is not None, f"C04.R3: cannot tell which branch of `{t.text(80)}` in {where} is the termination branch")
                 kind = "t" if pol else "f"
                 succ = branch_succ(g, t.id, kind)
                 region = g.reach(succ, avoid=[head, t.id], include_src=True) & (body | set(succ))
@@ -786,13 +828,13 @@ def r3(ctx):
                 guards = [i for i in region if g.nodes[i].kind == "test" and names & {x.id for x in ast.walk(g.nodes[i].ast) if isinstance(x, ast.Name)}]
                 for i in region:
                     n = g.nodes[i]
-                    if not _is_rearm(p, f, n):
+                    if not _is_rearm(p, h, n):
                         continue
                     if any(s == i or g.path(s, [i], avoid=guards + [head, t.id]) is not None for s in succ if s not in guards):
                         ok, why = False, f"`{n.text(70)}` re-arms the port after its termination token without a guard"
             ctx.ob("R3", f"{f.cls.name}.run: task loop `while {unparse(w.test)}` stops re-arming terminated ports", ok and rearm_somewhere,
-                   func=f, node=w, instance=inst,
-                   message=f"{f.qualname}: {why or 'no re-arm of the consumed port found in the loop'}: the loop waits forever on a port that already terminated")
+                   func=h, node=w, instance=inst,
+                   message=f"{where}: {why or 'no re-arm of the consumed port found in the loop'}: the loop waits forever on a port that already terminated")
 
 
 def _reads_task_set(f, w) -> bool:
@@ -902,22 +944,31 @@ def r4(ctx):
     ctx.ob("R4", "closed() reports the `_closed` flag", cd_ok,
            func=cd, node=cd.node, instance="closed:flag",
            message=f"closed() does not return self._closed ({cd_why}): the output loop of executor.run cannot end (or ends early)")
-    # (d) run raises on FAILED/CANCELLED
-    checks = []
-    for lp in loops:
-        v = lp.target.id
+    # (d) run raises on FAILED/CANCELLED: a loop over every step with a test, `any(...)` / `not all(...)` over every step,
+    # or either of them in a method run() calls (resolved `self.m()`, bound 1) that cannot finish normally past it
+    checks = _failing_checks(p, run, loops)
+    if not checks:
         for n in g.nodes.values():
-            if n.kind != "test" or not any(x is n.ast for x in ast.walk(lp)):
-                continue
-            relevant, edge, rest = _failing_edge(p, run, n.ast, lambda s: s == f"{v}.status")
-            if not relevant:
-                continue
-            # the edge taken exactly for FAILED/CANCELLED (no further condition) must raise, whichever branch that is
-            heads = g.ids_of(lp)
-            fsucc = [b for b in branch_succ(g, n.id, edge) if b not in heads] if edge is not None and not rest else []
-            raises = bool(fsucc) and any(g.nodes[b].kind == "raise_stmt" for b in g.reach(fsucc, avoid=heads + [n.id], include_src=True))
-            uncond = all(s == n.id or g.path(s, heads, avoid=[n.id]) is None for s in branch_succ(g, heads[0], "t"))
-            checks.append((n, lp, raises and uncond))
+            for c in node_calls(g, n):
+                if not self_call(c) or c.func.attr in ("close", "closed", "_wait_outputs", "_handle_exception", "_cancel"):
+                    continue
+                qs = p.resolve_call(run, c, fanout=True)
+                hs_ = [p.functions[q] for q in qs if q in p.functions]
+                if not hs_ or len(hs_) != len(qs) or any(h.is_abstract for h in hs_):
+                    continue
+                per = []
+                for h in hs_:
+                    hg = h.cfg
+                    hloops = [x for x in h.body_nodes() if isinstance(x, ast.For) and isinstance(x.target, ast.Name)
+                              and whole(h, x.iter, _steps_values, ordered=False)]
+                    hc = _failing_checks(p, h, hloops)
+                    if not hc:
+                        continue
+                    anchors = [i for _, ids, _ in hc for i in ids]
+                    per.append(all(o for *_, o in hc) and hg.escape(hg.entry, anchors, targets=[hg.exit]) is None
+                               and (not h.is_async or _awaited(c)))
+                if per and len(per) == len(hs_):
+                    checks.append((n, [n.id], all(per)))
     # the statuses are inspected only after the step tasks finished / the executor was closed
     waits = [n.id for n in g.nodes.values() if any(
         isinstance(x, ast.Await) and isinstance(x.value, ast.Call) and (
@@ -927,11 +978,11 @@ def r4(ctx):
         for x in n.walk())]
     collected = [n.id for n in g.nodes.values() if any(
         method_call(c, "append") and is_self_attr(c.func.value, "executions") for c in node_calls(g, n))]
-    waited = bool(checks) and bool(waits) and bool(collected) and all(g.dominates(waits, i) for _, lp, _ in checks for i in g.ids_of(lp))
+    waited = bool(checks) and bool(waits) and bool(collected) and all(g.dominates(waits, i) for _, ids, _ in checks for i in ids)
     ctx.ob("R4", "executor.run waits for the step tasks (gather) or for close() before it inspects the statuses", waited, func=run, node=run.node,
            instance="executor.run:wait", message="executor.run can inspect the step statuses / return while steps are still running")
     rets = [n.id for n in g.nodes.values() if n.kind == "return"]
-    dom = bool(checks) and all(g.dominates(g.ids_of(lp), r) for _, lp, _ in checks for r in rets)
+    dom = bool(checks) and all(g.dominates([i], r) for _, ids, _ in checks for i in ids for r in rets)
     ctx.ob("R4", "executor.run checks every step for FAILED/CANCELLED and raises before returning", bool(checks) and all(o for *_, o in checks) and dom,
            func=run, node=(checks[0][0].ast if checks else run.node), instance="executor.run:status-check",
            message="executor.run can return normally although a step is FAILED or CANCELLED")
@@ -1045,6 +1096,99 @@ def _failing_edge(p, f, test, subject_pred):
     if len(found) == 1:
         return relevant, found[0][0], found[0][1]
     return relevant, None, []
+
+
+def _exists_failing(p, f, a, v, depth: int = 3):
+    """The atom `a` having truth `v` means exactly "some step of the whole `self.workflow.steps` map has status FAILED or
+    CANCELLED": `any(<failing test on x.status> for x in <all steps>)` true, `all(<test> ...)` false with the test false
+    exactly for FAILED/CANCELLED, a non-empty `[x for x in <all steps> if <failing test>]`, or a local that only ever holds
+    one of those.  Returns the expressions whose evaluation inspects the statuses ([] when `a` is not such an atom)."""
+    if isinstance(a, ast.NamedExpr):
+        return _exists_failing(p, f, a.value, v, depth)
+    if isinstance(a, ast.Name):
+        if depth <= 0:
+            return []
+        os_ = [o for o in origins(f, a, 1) if not (isinstance(o, ast.Name) and o.id == a.id)]
+        found = [_exists_failing(p, f, o, v, depth - 1) for o in os_]
+        return [x for r in found for x in r] if found and all(found) else []
+    comp, neg = None, False
+    if isinstance(a, ast.Call) and isinstance(a.func, ast.Name) and a.func.id in ("any", "all") and len(a.args) == 1 and not a.keywords \
+            and isinstance(a.args[0], (ast.GeneratorExp, ast.ListComp, ast.SetComp)):
+        comp, neg = a.args[0], a.func.id == "all"
+        if v != (not neg):
+            return []
+        conds = [ast.UnaryOp(op=ast.Not(), operand=comp.elt)] if neg else [comp.elt]
+    elif isinstance(a, (ast.ListComp, ast.SetComp)) and v:
+        comp, conds = a, []
+    else:
+        return []
+    if len(comp.generators) != 1 or comp.generators[0].is_async or not isinstance(comp.generators[0].target, ast.Name):
+        return []
+    gen = comp.generators[0]
+    if not whole(f, gen.iter, _steps_values, ordered=False):
+        return []
+    conds = list(gen.ifs) + conds
+    if not conds:
+        return []
+    cond = conds[0] if len(conds) == 1 else ast.BoolOp(op=ast.And(), values=conds)
+    relevant, edge, rest = _failing_edge(p, f, cond, lambda s: s == f"{gen.target.id}.status")
+    rest = [(x, t) for x, t in rest if not (isinstance(x, ast.Constant) and bool(x.value) == t)]
+    return [a] if relevant and edge == "t" and not rest else []
+
+
+def _failing_checks(p, f, loops):
+    """[(test node, anchor node ids, ok)]: the places where `f` decides on "some step is FAILED/CANCELLED" over *every*
+    step; `ok` -- the edge taken exactly in that case (no further conjunct) leads to a `raise` on every path; the anchors
+    are the nodes that read the statuses (loop head / evaluation of the any(), and the test)."""
+    g = f.cfg
+    out = []
+
+    def must_raise(fsucc, stop):
+        if not fsucc:
+            return False
+        region = g.reach(fsucc, avoid=stop, include_src=True)
+        return any(g.nodes[b].kind == "raise_stmt" for b in region) and all(
+            g.path(s, list(stop) + [g.exit], avoid=[]) is None for s in fsucc if s not in stop)
+
+    for lp in loops:
+        v = lp.target.id
+        heads = g.ids_of(lp)
+        for n in g.nodes.values():
+            if n.kind != "test" or not any(x is n.ast for x in ast.walk(lp)):
+                continue
+            relevant, edge, rest = _failing_edge(p, f, n.ast, lambda s: s == f"{v}.status")
+            if not relevant:
+                continue
+            # the edge taken exactly for FAILED/CANCELLED (no further condition) must raise, whichever branch that is
+            fsucc = [b for b in branch_succ(g, n.id, edge) if b not in heads] if edge is not None and not rest else []
+            raises = must_raise(fsucc, heads + [n.id])
+            uncond = all(s == n.id or g.path(s, heads, avoid=[n.id]) is None for s in branch_succ(g, heads[0], "t"))
+            out.append((n, list(heads), raises and uncond))
+    for n in g.nodes.values():
+        if n.kind != "test" or n.ast is None:
+            continue
+        found = []
+        for kind in ("t", "f"):
+            ats = atoms(n.ast, kind == "t")
+            hits = [(a, _exists_failing(p, f, a, v)) for a, v in ats]
+            if any(h for _, h in hits):
+                found.append((kind, [e for _, h in hits for e in h], [a for a, h in hits if not h]))
+        if not found:
+            continue
+        anchors = {n.id}
+        for _, evs, _ in found:
+            for e in evs:
+                anchors |= set(g.node_containing(e))
+        ok = len(found) == 1 and not found[0][2] and must_raise(branch_succ(g, n.id, found[0][0]), [n.id])
+        # a copy of the verdict held in a local must not be older than a suspension point (the statuses may change meanwhile)
+        susp = set(g.suspension_nodes())
+        for i in anchors - {n.id}:
+            after = g.reach([i])
+            if any(s in after and n.id in g.reach([s]) for s in susp if s not in (i, n.id)):
+                ok = False
+        out.append((n, sorted(anchors), ok))
+    return out
+
 
 
 def _returns_flag(f, attr):
@@ -1171,13 +1315,57 @@ def _not_terminated(e, v) -> bool:
 # --------------------------------------------------------------------------- R5
 
 
+def _result_names(h, call) -> set[str]:
+    """Locals of `h` that receive the value of `call` (awaited or not): `x = await call`, `x: T = ...`, `(x := ...)`,
+    `x += ...`, `x.extend(...)`."""
+    e = call
+    while isinstance(parent(e), ast.Await) or (
+            isinstance(parent(e), ast.Call) and (dotted(parent(e).func) or "").split(".")[-1] == "cast" and e in parent(e).args[1:]):
+        e = parent(e)
+    up = parent(e)
+    out = set()
+    if isinstance(up, ast.Assign) and up.value is e:
+        out |= {t.id for t in up.targets if isinstance(t, ast.Name)}
+    elif isinstance(up, (ast.AnnAssign, ast.AugAssign)) and up.value is e and isinstance(up.target, ast.Name):
+        out.add(up.target.id)
+    elif isinstance(up, ast.NamedExpr) and up.value is e:
+        out.add(up.target.id)
+    elif method_call(up, "extend") and isinstance(up.func.value, ast.Name) and up.args and up.args[0] is e:
+        out.add(up.func.value.id)
+    return out
+
+
+def _returned_names(h) -> set[str]:
+    """Names `h` returns, with the locals they were plainly copied from (`res = statuses; return res`, bound 2)."""
+    return _copied_from(h, {n.value.id for n in h.body_nodes() if isinstance(n, ast.Return) and isinstance(n.value, ast.Name)})
+
+
+def _copied_from(h, names: set[str]) -> set[str]:
+    """`names` plus the locals of `h` they were plainly copied from (`res = statuses`, bound 2)."""
+    out = set(names)
+    for _ in range(2):
+        for name in list(out):
+            for n in h.body_nodes():
+                if isinstance(n, ast.Assign) and isinstance(n.value, ast.Name) and any(is_name(t, name) for t in n.targets):
+                    out.add(n.value.id)
+    return out
+
+
+def _reduced_names(h) -> set[str]:
+    """Locals of `h` that end up in `_reduce_statuses(<name>)` (also through a plain copy)."""
+    return _copied_from(h, {c.args[0].id for c in h.calls() if (dotted(c.func) or "").endswith("_reduce_statuses") and c.args and isinstance(c.args[0], ast.Name)})
+
+
 def r5(ctx):
     p = ctx.prog
-    f = p.func(f"{XSTEP}.run")
+    run = p.func(f"{XSTEP}.run")
+    # the task loop of run(): in run() itself or moved wholesale into a method run() awaits (resolved `self.m(...)`, bound 2)
+    sites = [(h, w, via) for h, w, via in _loop_sites(p, run) if not isinstance(w.test, ast.Constant)]
+    ctx.require(len(sites) == 1, "C04.R5: ExecuteStep.run (with the methods it awaits) no longer has exactly one task loop")
+    f, w, via = sites[0]
+    where = "ExecuteStep.run" if f is run else f"{f.cls.name}.{f.name} (task loop of ExecuteStep.run, awaited through " \
+        + " -> ".join("self." + c.func.attr + "()" for _, c in via) + ")"
     g = f.cfg
-    wl = [n for n in f.body_nodes() if isinstance(n, ast.While) and not isinstance(n.test, ast.Constant)]
-    ctx.require(len(wl) == 1, "C04.R5: ExecuteStep.run no longer has exactly one task loop")
-    w = wl[0]
     head = g.ids_of(w.test)[0]
     body = loop_body_nodes(g, head)
     # the set of pending tasks: second result of asyncio.wait assigned in the loop
@@ -1188,7 +1376,7 @@ def r5(ctx):
             v = strip_cast(a.value)
             if isinstance(v, ast.Call) and (dotted(v.func) or "").endswith("asyncio.wait") and isinstance(a.targets[0].elts[1], ast.Name):
                 pend.add(a.targets[0].elts[1].id)
-    ctx.require(bool(pend), "C04.R5: the pending-task set of asyncio.wait was not found in ExecuteStep.run")
+    ctx.require(bool(pend), f"C04.R5: the pending-task set of asyncio.wait was not found in {where}")
     # statuses recorded in the loop
     rec = []
     for i in body:
@@ -1197,10 +1385,15 @@ def r5(ctx):
                 lst = c.func.value.id
                 # the list that ends up in _reduce_statuses(...) at the final terminate
                 rec.append((i, c, lst))
-    final = [c for c in f.calls() if (dotted(c.func) or "").endswith("_reduce_statuses") and c.args and isinstance(c.args[0], ast.Name)]
-    names = {c.args[0].id for c in final}
+    # ... directly, or as the value the loop's method returns into such a list of its caller
+    names = _reduced_names(run)
+    for (caller, call), callee in zip(via, [x for x, _ in via][1:] + [f]):
+        nxt = _reduced_names(callee)
+        if _result_names(caller, call) & _copied_from(caller, names):
+            nxt |= _returned_names(callee)
+        names = nxt
     rec = [(i, c, lst) for i, c, lst in rec if lst in names]
-    ctx.require(len(rec) >= 2, f"C04.R5: only {len(rec)} status-recording sites found in the task loop of ExecuteStep.run")
+    ctx.require(len(rec) >= 2, f"C04.R5: only {len(rec)} status-recording sites found in the task loop of {where}")
     for i, c, lst in rec:
         val = c.args[0]
         label = unparse(val)[:50]
@@ -1235,7 +1428,7 @@ def r5(ctx):
                 ok, why = True, ""
                 break
         ctx.ob("R5", f"ExecuteStep.run: recording `{label}` cancels all pending tasks when it is FAILED/CANCELLED", ok, func=f, node=c,
-               instance=f"execute.run:cancel:{label}", message=f"ExecuteStep.run records `{label}` but {why}: pending jobs keep running after a failure")
+               instance=f"execute.run:cancel:{label}", message=f"{where} records `{label}` but {why}: pending jobs keep running after a failure")
 
 
     _run_job_statuses(ctx)
@@ -1836,4 +2029,126 @@ VARIANTS = [
       "    while True:\n        token = await input_port.get(posixpath.join(self.name, next(iter(self.input_ports))))\n        if isinstance(token, TerminationToken):\n            status = token.value\n            break\n        else:",
       "    done = False\n    while not done:\n        token = await input_port.get(posixpath.join(self.name, next(iter(self.input_ports))))\n        if isinstance(token, TerminationToken):\n            status = token.value\n        else:", "R3"),
     V("benign: reordered independent statements in GatherStep.run", SFILE, _S + "GatherStep.run", "keys_completed = set()\n    status = Status.SKIPPED", "status = Status.SKIPPED\n    keys_completed = set()", None),
+]
+
+
+# ---- fix7: the anchored construct moved into a cooperating method / changed idiom (loop with a raise -> any())
+def _ind(text: str, n: int) -> str:
+    return "\n".join((" " * n + ln) if ln else ln for ln in text.split("\n"))
+
+
+_XLOOP = (
+    "statuses = []\n"
+    "inputs_map: dict[str, dict[str, Token]] = {}\n"
+    "unfinished = {asyncio.create_task(self._get_inputs(input_ports), name='retrieve_inputs')}\n"
+    "while unfinished:\n"
+    "    finished, unfinished = await asyncio.wait(unfinished, return_when=asyncio.FIRST_COMPLETED)\n"
+    "    for task in finished:\n"
+    "        if task.cancelled():\n"
+    "            continue\n"
+    "        if task.get_name() == 'retrieve_inputs':\n"
+    "            inputs = task.result()\n"
+    "            if check_termination(inputs.values()):\n"
+    "                statuses.append(_reduce_statuses([t.value for t in inputs.values()]))\n"
+    "                if statuses[-1] in (Status.CANCELLED, Status.FAILED):\n"
+    "                    for t in unfinished:\n"
+    "                        t.cancel()\n"
+    "            else:\n"
+    "                await self._check_inputs(inputs, input_ports, inputs_map, connectors, unfinished)\n"
+    "        else:\n"
+    "            job_status = task.result()\n"
+    "            if job_status in (Status.CANCELLED, Status.FAILED):\n"
+    "                for t in unfinished:\n"
+    "                    t.cancel()\n"
+    "            statuses.append(job_status)"
+)
+_XREST = (
+    "elif (job := (await cast(JobPort, self.get_input_port('__job__')).get_job(self.name))) is not None:\n"
+    "    statuses = [await self._run_job(job, {}, connectors)]\n"
+    "else:\n"
+    "    statuses = [Status.SKIPPED]\n"
+    "await asyncio.gather(*(asyncio.create_task(p.get(posixpath.join(self.name, port_name))) for port_name, p in connector_ports.items()))\n"
+    "await self.terminate(self._get_status(_reduce_statuses(statuses)))"
+)
+_XOLD = _ind(_XLOOP, 12) + "\n" + _ind(_XREST, 8)
+
+
+def _xsplit(loop: str = _XLOOP, call: str = "statuses = await self._run_jobs(input_ports, connectors)", ret: str = "return statuses") -> str:
+    """ExecuteStep (class text) with the task loop of run() moved wholesale into a second method."""
+    return (_ind(call, 12) + "\n" + _ind(_XREST, 8) + "\n\n    async def _run_jobs(self, input_ports, connectors):\n"
+            + _ind(loop, 8) + "\n" + _ind(ret, 8))
+
+
+_ECHECK = "for step in self.workflow.steps.values():\n    if step.status in [Status.FAILED, Status.CANCELLED]:\n        raise WorkflowExecutionException('FAILED Workflow execution')"
+_ERAISE = "raise WorkflowExecutionException('FAILED Workflow execution')"
+_EANY = "any((step.status in [Status.FAILED, Status.CANCELLED] for step in self.workflow.steps.values()))"
+_ETAIL = (
+    "if self.workflow.persistent_id:\n"
+    "    await self.workflow.context.database.update_workflow(self.workflow.persistent_id, {'status': Status.COMPLETED.value, 'end_time': time.time_ns()})\n"
+    "return output_tokens"
+)
+_EHANDLER = (
+    "except BaseException:\n"
+    "    if self.workflow.persistent_id:\n"
+    "        await self.workflow.context.database.update_workflow(self.workflow.persistent_id, {'status': Status.FAILED.value, 'end_time': time.time_ns()})\n"
+    "    await self.close()\n"
+    "    raise"
+)
+_EOLD = _ind(_ECHECK, 12) + "\n" + _ind(_ETAIL, 12) + "\n" + _ind(_EHANDLER, 8)
+
+
+def _esplit(helper_body: str, call: str = "self._raise_if_failed()") -> str:
+    """StreamFlowExecutor (class text) with the final status check of run() moved into a second method."""
+    return (_ind(call, 12) + "\n" + _ind(_ETAIL, 12) + "\n" + _ind(_EHANDLER, 8) + "\n\n    def _raise_if_failed(self) -> None:\n"
+            + _ind(helper_body, 8))
+
+
+def _erun(new: str):
+    return dict(file=EFILE, target=f"{EXEC}.run", old=_ind(_ECHECK, 8), new=_ind(new, 8))
+
+
+VARIANTS += [
+    # B12-5: loop with a conditional raise -> any() over a generator (and its duals)
+    V("benign: executor.run status check as any() over a generator", expect=None, **_erun(f"if {_EANY}:\n    {_ERAISE}")),
+    V("benign: executor.run status check as `not all(...)`", expect=None,
+      **_erun(f"if not all((step.status not in [Status.FAILED, Status.CANCELLED] for step in self.workflow.steps.values())):\n    {_ERAISE}")),
+    V("benign: executor.run status check as any() held in a local, guard clause", expect=None,
+      **_erun(f"failed = {_EANY}\nlogger.debug('checked')\nif not failed:\n    pass\nelse:\n    {_ERAISE}")),
+    V("benign: executor.run status check as a non-empty list of failed steps", expect=None,
+      **_erun(f"failed_steps = [s for s in list(self.workflow.steps.values()) if s.status == Status.FAILED or s.status == Status.CANCELLED]\nif failed_steps:\n    {_ERAISE}")),
+    V("any() status check ignores CANCELLED", expect="R4", **_erun(f"if any((step.status in [Status.FAILED] for step in self.workflow.steps.values())):\n    {_ERAISE}")),
+    V("any() status check looks at terminated steps only", expect="R4",
+      **_erun(f"if any((step.status in [Status.FAILED, Status.CANCELLED] for step in self.workflow.steps.values() if step.terminated)):\n    {_ERAISE}")),
+    V("any() status check skips the first step", expect="R4",
+      **_erun(f"if any((step.status in [Status.FAILED, Status.CANCELLED] for step in list(self.workflow.steps.values())[1:])):\n    {_ERAISE}")),
+    V("any() status check only logs", expect="R4", **_erun(f"if {_EANY}:\n    logger.error('FAILED Workflow execution')")),
+    V("any() status check raises only under a further condition", expect="R4", **_erun(f"if {_EANY} and output_tokens:\n    {_ERAISE}")),
+    V("any() status check raises on one path only", expect="R4", **_erun(f"if {_EANY}:\n    if output_tokens:\n        {_ERAISE}")),
+    V("all() status check with the wrong polarity", expect="R4",
+      **_erun(f"if not all((step.status in [Status.FAILED, Status.CANCELLED] for step in self.workflow.steps.values())):\n    {_ERAISE}")),
+    V("any() verdict taken before a suspension point", expect="R4",
+      **_erun(f"failed = {_EANY}\nawait asyncio.sleep(0)\nif failed:\n    {_ERAISE}")),
+    V("any() verdict taken before the step tasks were awaited", EFILE, f"{EXEC}.run",
+      "else:\n            await asyncio.gather(*self.executions)\n" + _ind(_ECHECK, 8),
+      f"else:\n            failed = {_EANY}\n            await asyncio.gather(*self.executions)\n        if self.workflow.output_ports:\n            failed = {_EANY}\n        if failed:\n            {_ERAISE}", "R4"),
+    V("loop status check raises on one path only", EFILE, f"{EXEC}.run", "                " + _ERAISE, "                if output_tokens:\n                    " + _ERAISE, "R4"),
+    # ... and the check moved into a method run() calls
+    V("benign: executor.run status check moved into a helper method", EFILE, EXEC, _EOLD, _esplit(_ECHECK), None),
+    V("benign: executor.run status check moved into a helper method (any form)", EFILE, EXEC, _EOLD, _esplit(f"if {_EANY}:\n    {_ERAISE}"), None),
+    V("status-check helper can return before it looked at the steps", EFILE, EXEC, _EOLD, _esplit("if not self.workflow.persistent_id:\n    return\n" + _ECHECK), "R4"),
+    V("status-check helper ignores CANCELLED", EFILE, EXEC, _EOLD, _esplit(_ECHECK.replace("[Status.FAILED, Status.CANCELLED]", "[Status.FAILED]")), "R4"),
+    V("status-check helper is a coroutine that is never awaited", EFILE, EXEC, _EOLD, _esplit(_ECHECK).replace("    def _raise_if_failed", "    async def _raise_if_failed"), "R4"),
+    # B12-2: the task loop of ExecuteStep.run moved wholesale into a second method
+    V("benign: ExecuteStep.run task loop moved into _run_jobs", SFILE, XSTEP, _XOLD, _xsplit(), None),
+    V("benign: ExecuteStep.run task loop moved into _run_jobs, result through temporaries", SFILE, XSTEP, _XOLD,
+      _xsplit(call="job_statuses = await self._run_jobs(input_ports, connectors)\nstatuses = job_statuses", ret="result = statuses\nreturn result"), None),
+    V("split task loop: cancel loop removed from the termination branch", SFILE, XSTEP, _XOLD,
+      _xsplit(_XLOOP.replace("                if statuses[-1] in (Status.CANCELLED, Status.FAILED):\n                    for t in unfinished:\n                        t.cancel()\n", "")), "R5"),
+    V("split task loop: job-result branch cancels only on CANCELLED", SFILE, XSTEP, _XOLD,
+      _xsplit(_XLOOP.replace("if job_status in (Status.CANCELLED, Status.FAILED):", "if job_status in (Status.CANCELLED,):")), "R5"),
+    V("split task loop: never tests for a termination token", SFILE, XSTEP, _XOLD,
+      _xsplit(_XLOOP.replace("if check_termination(inputs.values()):", "if len(inputs) == 0:")), "R3"),
+    V("split task loop: re-arms retrieve_inputs after the termination token", SFILE, XSTEP, _XOLD,
+      _xsplit(_XLOOP.replace("            if check_termination(inputs.values()):\n",
+                             "            if check_termination(inputs.values()):\n                unfinished.add(asyncio.create_task(self._get_inputs(input_ports), name='retrieve_inputs'))\n")), "R3"),
 ]
